@@ -247,7 +247,7 @@ def search(spec):
     seen_kf = None
     for n in range(1, spec.get("nodes", 4) + 1):
         for sh in Q.shapes(n):
-            for start in ([0, n - 1] if n > 1 else [0]):
+            for start in range(n):      # every start: the last pre-order node is always a leaf, inner non-root starts matter
                 for stop in Q.subsets(range(n), None):
                     for filt in Q.subsets(range(n), None):
                         for maxlevel in [None] + list(range(0, n + 1)):
